@@ -37,7 +37,7 @@ func TestMain(m *testing.M) {
 		"two-way differential against a reference implementation written from docs/DesignAndArchitecture.md, docs/Metastore.md, docs/KeyManagementService.md and the cross-language features (own JSON codec with exact field names, AES-256-GCM laid out as ciphertext || 16-byte tag || 12-byte nonce straight from crypto/cipher, own key-id formatting; shares no code with the SDK). "+
 			"rapid draws payloads (incl. empty), partition / service / product ids, timestamps, revoked and rotated hierarchies and a carrier in {memory, SQL key_record text (mysql, postgres), DynamoDB item of SDK v1, DynamoDB item of SDK v2, each with region suffix on/off} plus the sidecar's protobuf mapping. "+
 			"SDK writes -> reference reads: the strict reference parsers (exact field names Key / Data / Created / ParentKeyMeta{KeyId,Created}, Revoked only when true, standard base64, no unknown fields; per-carrier row shapes) accept every record and key row the SDK emits, key ids equal _SK_service_product / _IK_partition_service_product[_region], and the reference decrypts to the payload from the raw rows alone. "+
-			"Reference writes -> SDK reads: the SDK decrypts records the reference built over rows the reference wrote in each carrier's documented shape, and adopts the reference-written key for its next encrypt; with a region-suffixing metastore the reference writer may sit in another region or predate the suffix (ids with another / no region component in the same table). "+
+			"Reference writes -> SDK reads: the SDK decrypts records the reference built over rows the reference wrote in each carrier's documented shape, and adopts the reference-written key for its next encrypt; a reference writer that stores the same keys between the SDK's look-up and its insert (the SDK continues under the stored ones); a session held across the key lifetime writes again (the record must name the keys it then uses); with a region-suffixing metastore the reference writer may sit in another region or predate the suffix (ids with another / no region component in the same table). "+
 			"Names contain % and other format-hostile characters; the master-key service takes 0-61 s of virtual time to wrap a system key (clock at sub-second offsets) and returns 60, 61, 62 or 100 bytes. "+
 			"One evaluation = one case (both directions on one carrier). Every case is non-trivial; distinct = (carrier, ids, payload length, hierarchy shape)",
 		"trusted base: my reading of the documentation embodied in the reference implementation; static KMS = AES-256-GCM under the static key with the same layout")
@@ -287,6 +287,30 @@ func (s slowKMS) DecryptKey(c context.Context, b []byte) ([]byte, error) {
 
 var refPad int // extra bytes of the master-key service's output in the current case
 
+// racingMS lets another writer act between the SDK's first look-up of an intermediate key (which
+// finds nothing) and whatever the SDK does next.
+type racingMS struct {
+	appencryption.Metastore
+	hook  func(id string)
+	fired bool
+}
+
+func (r *racingMS) LoadLatest(c context.Context, id string) (*appencryption.EnvelopeKeyRecord, error) {
+	rec, err := r.Metastore.LoadLatest(c, id)
+	if rec == nil && err == nil && !r.fired && strings.HasPrefix(id, "_IK_") {
+		r.fired = true
+		r.hook(id)
+	}
+	return rec, err
+}
+
+func (r *racingMS) GetRegionSuffix() string {
+	if sp, ok := r.Metastore.(interface{ GetRegionSuffix() string }); ok {
+		return sp.GetRegionSuffix()
+	}
+	return ""
+}
+
 func refKMSWrap(sk []byte) []byte {
 	ct, err := kit.GCMSeal([]byte(staticKey), sk)
 	if err != nil {
@@ -325,10 +349,11 @@ func TestTwoWayDifferential(t *testing.T) {
 		// the master-key service is a network call: time passes while it wraps a new system key
 		kmsDelay := rapid.SampledFrom([]time.Duration{0, 0, 0, 400 * time.Millisecond, time.Second, 61 * time.Second}).Draw(t, "kmsEncryptTakes")
 		refPad = rapid.SampledFrom([]int{0, 0, 1, 2, 40}).Draw(t, "kmsOutputExtraBytes")
+		var sdkMS appencryption.Metastore = c.ms
 		newFactory := func() *appencryption.SessionFactory {
 			pol := appencryption.NewCryptoPolicy()
 			pol.CreateDatePrecision = time.Second
-			return appencryption.NewSessionFactory(&appencryption.Config{Service: service, Product: product, Policy: pol}, c.ms, slowKMS{k, kmsDelay, refPad}, aead.NewAES256GCM(), appencryption.WithSecretFactory(kit.NewTracker()))
+			return appencryption.NewSessionFactory(&appencryption.Config{Service: service, Product: product, Policy: pol}, sdkMS, slowKMS{k, kmsDelay, refPad}, aead.NewAES256GCM(), appencryption.WithSecretFactory(kit.NewTracker()))
 		}
 		skID, ikID := kit.RefSKID(service, product, c.region), kit.RefIKID(part, service, product, c.region)
 		// with a region-suffixing metastore (global table) the rows and records of writers in ANOTHER region,
@@ -418,6 +443,23 @@ func TestTwoWayDifferential(t *testing.T) {
 
 		// ---- SDK writes -> reference reads ------------------------------------------
 		sdkWrite := func() {
+			// a writer built from the documentation may create the same keys at the same moment: it stores its
+			// system key and intermediate key between the SDK's look-up and the SDK's own insert (which is then
+			// refused: the SDK continues under the stored keys)
+			if !refFirst && rapid.Bool().Draw(t, "referenceWriterRaces") {
+				sdkMS = &racingMS{Metastore: c.ms, hook: func(id string) {
+					at := verifhook.Now().Unix()
+					sk, skRow := kit.RefNewSK(refKMSWrap, at)
+					_, ikRow, _ := kit.RefNewIK(sk, skID, at, at)
+					if err := c.put(skID, at, skRow); err != nil {
+						t.Fatalf("harness: racing reference write failed: %v", err)
+					}
+					if err := c.put(id, at, ikRow); err != nil {
+						t.Fatalf("harness: racing reference write failed: %v", err)
+					}
+				}}
+				defer func() { sdkMS = c.ms }()
+			}
 			f := newFactory()
 			defer f.Close()
 			s, err := f.GetSession(part)
@@ -428,10 +470,23 @@ func TestTwoWayDifferential(t *testing.T) {
 			// make the IK younger than its SK: the SK is created by a first write on another
 			// partition, the IK of this partition a few seconds later
 			if o, err := f.GetSession(part + "-other"); err == nil {
-				if _, err := o.Encrypt(ctx, []byte("x")); err != nil {
+				od, err := o.Encrypt(ctx, []byte("other partition's payload"))
+				if err != nil {
 					bad("encrypt failed: %v", err)
 				}
 				o.Close()
+				ojs, _ := json.Marshal(od)
+				oref, err := kit.ParseDRRStrict(ojs)
+				if err != nil {
+					bad("the record JSON is not the documented shape: %v: %s", err, ojs)
+				}
+				osnap, err := c.rows()
+				if err != nil {
+					bad("a key row written by the SDK is not in the documented shape for %s: %v", c.name, err)
+				}
+				if out, err := kit.RefDecrypt(osnap, refKMSUnwrap, oref); err != nil || string(out) != "other partition's payload" {
+					bad("the reference implementation cannot decrypt the SDK's first record of partition %q from the raw %s rows: %v", part+"-other", c.name, err)
+				}
 			}
 			verifhook.Advance(time.Duration(rapid.IntRange(1, 5000).Draw(t, "gap")) * time.Second)
 			now = verifhook.Now().Unix()
@@ -503,6 +558,30 @@ func TestTwoWayDifferential(t *testing.T) {
 			}
 			if pref.Key.Created == 0 || pref.Key.Created < now-5 || pref.Key.Created > now+5 {
 				bad("sidecar mapping: DRK created %d is not the current time (fields swapped?)", pref.Key.Created)
+			}
+			// the same session is still open when its keys expire: what it writes then names the keys it then uses
+			if rapid.Bool().Draw(t, "writeAgainAfterRotation") {
+				verifhook.Advance(90*24*time.Hour + time.Hour)
+				drr2, err := s.Encrypt(ctx, payload)
+				if err != nil {
+					bad("encrypt on a held session after the key lifetime failed: %v", err)
+				}
+				js2, _ := json.Marshal(drr2)
+				ref2, err := kit.ParseDRRStrict(js2)
+				if err != nil {
+					bad("the record JSON is not the documented shape: %v: %s", err, js2)
+				}
+				if ref2.Key.Parent == nil || ref2.Key.Parent.KeyID != ikID {
+					bad("record names key id %q, documented format gives %q", ref2.Key.Parent.KeyID, ikID)
+				}
+				snap, err = c.rows()
+				if err != nil {
+					bad("a key row written by the SDK is not in the documented shape for %s: %v", c.name, err)
+				}
+				out, err = kit.RefDecrypt(snap, refKMSUnwrap, ref2)
+				if err != nil || !bytes.Equal(out, payload) {
+					bad("the reference implementation cannot decrypt a record the SDK wrote on a session held across a key rotation (record names IK created %d): %v", ref2.Key.Parent.Created, err)
+				}
 			}
 		}
 		if refFirst {
